@@ -82,13 +82,13 @@ func init() {
 	checks["C06"] = func(tier string) int {
 		arg := opsArg{Name: "c06", Init: []string{"reg:G1:temp", "now:100"}, RestartCheck: true}
 		ops := []string{
-			"auth:1:kA:1000:G1",      // a1
-			"auth:1:kA:2000:G1",      // a1': capacity differs
-			"auth:1:kA:1000:G1:debt", // a1*: differs in the debt field only
-			"auth:1:kB:1000:G1",      // a1'': carries device 2's key
-			"auth:1:kF:1000:G1",      // a1''': fresh key
-			"auth:2:kB:1000:G1",      // a2
-			"auth:1:kA:1000:G1:flip", // one bit of the signature flipped
+			"auth:1:kA:1000:G1",       // a1
+			"auth:1:kA:2000:G1",       // a1': capacity differs
+			"auth:1:kA:1000:G1:debt",  // a1*: differs in the debt field only
+			"auth:1:kB:1000:G1",       // a1'': carries device 2's key
+			"auth:1:kF:1000:G1",       // a1''': fresh key
+			"auth:2:kB:1000:G1",       // a2
+			"auth:1:kA:1000:G1:flip",  // one bit of the signature flipped
 			"auth:1:kA:1000:G1:stale", // content altered after signing: carries the valid signature of a1
 			"auth:1:kA:1000:temp", "auth:1:kA:1000:srv", "auth:1:kA:1000:G2",
 			"auth:1:kA:2000:G2", // a conflict that is not signed by the GCA must not ban
